@@ -555,8 +555,11 @@ class Fn:
                 v = c.get('v')
                 if v is None:
                     s = c.get('s', '')
-                    if s.startswith('const "'):
-                        return ('const', s[7:-1] if s.endswith('"') else s[7:], c['ty'])
+                    if s.startswith('const '):
+                        s = s[6:]
+                    if s.startswith('"') or s.startswith('b"'):
+                        body = s[s.index('"') + 1:]
+                        return ('const', body[:-1] if body.endswith('"') else body, c['ty'])
                     return ('const', None, c['ty'] + ':' + s)
                 return ('const', v, c['ty'])
             if ck == 'uneval':
